@@ -729,6 +729,15 @@ func (w *AlonzoTransactionWitnessSet) UnmarshalCBOR(cborData []byte) error {
 	return nil
 }
 
+func (w *AlonzoTransactionWitnessSet) MarshalCBOR() ([]byte, error) {
+	// Return the original CBOR if available so that re-encoding a decoded
+	// object reproduces the exact bytes it was decoded from
+	if w.Cbor() != nil {
+		return w.Cbor(), nil
+	}
+	return cbor.EncodeGeneric(w)
+}
+
 func (w AlonzoTransactionWitnessSet) Vkey() []common.VkeyWitness {
 	return w.VkeyWitnesses
 }
